@@ -72,9 +72,22 @@ def gen_config(seed):
     return cfg
 
 
+def pkg_variant(k):
+    """the packaged configuration with the SAME element numbers but a different assignment of the PDS carriers:
+    k = 0: element 48 is plain text (carriers 62, 123, 124, 125); k = 1: only 62 and 125 are carriers"""
+    import copy
+    bc = copy.deepcopy(PKG['bit_config'])
+    drop = ('48',) if k == 0 else ('48', '123', '124')
+    for b in drop:
+        bc[b].pop('field_processor', None)
+    return bc
+
+
 def get_config(spec):
     if spec[0] == 'pkg':
         return PKG['bit_config']
+    if spec[0] == 'pkgvar':
+        return pkg_variant(spec[1])
     if spec[0] == 'gen':
         return gen_config(spec[1])
     raise ValueError(spec)
